@@ -257,6 +257,12 @@ def merge_to_number(desired_chunks, max_number):
     if len(desired_chunks) <= max_number:
         return desired_chunks
 
+    if 0 in desired_chunks:
+        # Zero-width chunks hold no data, and 0 marks merged-away slots below.
+        desired_chunks = tuple(c for c in desired_chunks if c != 0) or (0,)
+        if len(desired_chunks) <= max_number:
+            return desired_chunks
+
     distinct = set(desired_chunks)
     if len(distinct) == 1:
         w = distinct.pop()
